@@ -62,7 +62,9 @@ def queries():
             d = t0tool.gen_dir(p)
             effs = t0tool.native_effects(p, jobs=int(os.environ.get("VERIF_JOBS", "6")))
             t0tool.gen_preconditions(p, effs)
-        except Exception as ex:            # reported by extra_checks as an encoder failure
+        except Exception as ex:            # also reported by extra_checks as an encoder failure
+            import traceback
+            sys.stderr.write("C05: encoder failure for %s: %s\n" % (key, traceback.format_exc()))
             continue
         cov = None
         if key in HS_PROGRAMS:
@@ -87,6 +89,137 @@ def queries():
 HS_COVERED = set()
 
 
+def _res(name, verdict, desc, failed=(), stats=None, **kw):
+    r = {"query": name, "harness": "encoders/t0tool.py", "units": [], "defs": [], "config": "host", "bounds": {},
+         "backend": kw.pop("backend", "z3"), "desc": desc, "verdict": verdict, "failed": list(failed),
+         "witness": {"points": 1, "unreached": []}, "nontrivial": True, "stats": stats or {},
+         "properties_checked": kw.pop("obligations", 1)}
+    r.update(kw)
+    return r
+
+
+def _native_demo(repo, builddir, args, tag):
+    """builds findings/C05_push_after_error_demo.c against the current tree (ASan/UBSan) and runs it;
+    returns (crashed: bool|None, text, replay path)"""
+    import subprocess, hashlib
+    os.makedirs(builddir, exist_ok=True)
+    exe = os.path.join(builddir, "push_demo.exe")
+    src = os.path.join(ROOT, "findings", "C05_push_after_error_demo.c")
+    cmd = ["gcc", "-g", "-w", "-fsanitize=address,undefined", "-fno-sanitize-recover=undefined", "-I" + os.path.join(repo, "inc"),
+           "-I" + os.path.join(repo, "src"), src] + [os.path.join(repo, "src", "x509", f) for f in ("pkey_decoder.c", "skey_decoder.c", "x509_decoder.c")] + ["-o", exe]
+    if not os.path.exists(exe) or os.path.getmtime(exe) < os.path.getmtime(src):
+        p = subprocess.run(cmd, stdout=subprocess.PIPE, stderr=subprocess.STDOUT)
+        if p.returncode != 0:
+            return None, "demo does not build: " + p.stdout.decode("utf-8", "replace")[-800:], None
+    env = dict(os.environ)
+    env["ASAN_OPTIONS"] = "detect_leaks=0"
+    p = subprocess.run([exe] + args, stdout=subprocess.PIPE, stderr=subprocess.STDOUT, env=env, timeout=120)
+    text = p.stdout.decode("utf-8", "replace")
+    crashed = p.returncode != 0
+    rdir = os.path.join(ROOT, "replays", "C05")
+    os.makedirs(rdir, exist_ok=True)
+    rpath = os.path.join(rdir, "%s.json" % tag)
+    keep = "\n".join(l for l in text.splitlines() if not l.startswith("    #") or l.startswith("    #0") or l.startswith("    #1") or l.startswith("    #2"))
+    with open(rpath, "w") as f:
+        json.dump({"property_id": "C05", "query": tag, "kind": "native demonstration through the public API (not a CBMC harness replay)",
+                   "build": " ".join(cmd), "run": "ASAN_OPTIONS=detect_leaks=0 " + exe + " " + " ".join(args),
+                   "native_reproduced": crashed, "native_output": keep[-2500:]}, f, indent=1)
+    return crashed, keep[-1200:], rpath
+
+
+NO_ERR_GATE = {"pkey": "br_pkey_decoder_push", "skey": "br_skey_decoder_push", "x509dec": "br_x509_decoder_push"}
+DEMO_ARG = {"pkey": ["pkey"], "skey": ["skey"], "x509dec": ["x509"]}
+
+
 def extra_checks(tier, repo, builddir):
     out = []
+    jobs = int(os.environ.get("VERIF_JOBS", "6"))
+    for key in _selected():
+        t0 = time.time()
+        try:
+            p = _prog(key)
+            effs = t0tool.native_effects(p, jobs=jobs)
+        except Exception as ex:
+            out.append(_res("e4-stack-%s" % key, "INCONCLUSIVE", "encoder failure", reason="t0tool: %r" % (ex,), kind="encoding"))
+            continue
+        nproved = sum(1 for e in effs.values() if e.proved or "per-literal" in (e.note or ""))
+        unproved = [e.name + ": " + (e.note or "")[:160] for e in effs.values() if not (e.proved or "per-literal" in (e.note or ""))]
+        # ---- E4, callers stop at the first error
+        r = t0tool.stack_system(p, effs, resume_after_fail=False)
+        st = {"z3_s": r["z3_s"], "smt_vars": r["smt_vars"], "smt_asserts": r["smt_asserts"], "natives": len(effs),
+              "native_effects_proved_by_cbmc": nproved, "words": len(p.words), "code_bytes": len(p.code),
+              "N_dp": p.ndp, "N_rp": p.nrp, "max_data_depth": r.get("max_data_depth"), "min_data_depth": r.get("min_data_depth"),
+              "max_return_depth": r.get("max_return_depth"), "recursion": r["recursion"], "value_dependent_sites": r["value_dependent_sites"],
+              "wall_s": round(time.time() - t0, 1)}
+        desc = ("E4 stack-effect system of %s: depth equations over the decoded bytecode CFG (%d words, %d natives, effects proved by CBMC), "
+                "z3: satisfiable (depth is a function of the instruction) and 'max data depth > %d or < 0, or max return depth > %d' unsatisfiable; "
+                "a yield with err != 0 is not resumed") % (p.rel, len(p.words), len(effs), p.ndp, p.nrp)
+        if r["covered"]:
+            out.append(_res("e4-stack-%s" % key, "PASS", desc, stats=st, total_wall_s=st["wall_s"]))
+        else:
+            why = list(r["not_covered"][:6]) + unproved[:6] + r.get("conflicts", [])[:4]
+            if r["consistent"] == "sat" and r["violation_query"] == "sat":
+                fl = [{"property": "e4.stack-bound.%s" % key, "description": "VM stack bound exceeded: max data depth %s (N=%d), min %s, max return depth %s (N=%d)" % (
+                    r.get("max_data_depth"), p.ndp, r.get("min_data_depth"), r.get("max_return_depth"), p.nrp), "status": "FAILURE", "where": p.rel}]
+                out.append(_res("e4-stack-%s" % key, "FAIL", desc, failed=fl, stats=st, total_wall_s=st["wall_s"]))
+            else:
+                out.append(_res("e4-stack-%s" % key, "INCONCLUSIVE", desc, stats=st, kind="encoding", total_wall_s=st["wall_s"],
+                                reason="program not covered by the stack system: " + "; ".join(why)[:600]))
+        # ---- E4 when every yield may be resumed (push functions that do not test err)
+        if key in NO_ERR_GATE:
+            t1 = time.time()
+            rb = t0tool.stack_system(p, effs, resume_after_fail=True)
+            desc_b = ("E4 for %s when the caller keeps pushing after an error (%s does not test err, so the coroutine is resumed after the failing "
+                      "`fail` word): same system with every yield resumable") % (p.rel, NO_ERR_GATE[key])
+            fl = []
+            if rb["consistent"] != "sat":
+                fl.append({"property": "e4.resume.depth.%s" % key, "status": "FAILURE", "where": p.rel,
+                           "description": "resumed after fail the stack depth depends on the path (%s); inductive bounds inside the %d/%d-slot stacks %s" % (
+                               "; ".join(rb.get("conflicts", [])[:3]), p.ndp, p.nrp,
+                               "exist" if rb.get("interval_bounds_exist") == "sat" else "do NOT exist (stack pointer can leave dp_stack/rp_stack)")})
+            if rb.get("main_can_return") and not r.get("main_can_return"):
+                fl.append({"property": "e4.resume.halt.%s" % key, "status": "FAILURE", "where": p.rel,
+                           "description": "resumed after fail the main word reaches its final `ret` (ip := NULL; unreachable otherwise); the next %s dereferences the NULL instruction pointer" % NO_ERR_GATE[key]})
+            crashed, text, rpath = _native_demo(repo, builddir, DEMO_ARG[key], "push-after-error-%s" % key)
+            for f_ in fl:
+                f_["replay"] = {"path": rpath, "reproduced": crashed, "text": (text or "")[-600:], "native_rc": None}
+            stb = {"z3_s": rb["z3_s"], "consistent": rb["consistent"], "interval_bounds_exist": rb.get("interval_bounds_exist"),
+                   "native_demo_crashed": crashed, "wall_s": round(time.time() - t1, 1)}
+            out.append(_res("e4-stack-%s-resume-after-fail" % key, "FAIL" if fl else "PASS", desc_b, failed=fl, stats=stb, total_wall_s=stb["wall_s"]))
+        # ---- literal capacity audit
+        aud = t0tool.capacity_audit(p)
+        bad = [a for a in aud if not a["fits"]]
+        desc_c = "size literals of the bytecode of %s paired with the buffer address literal used next to them: region [A, A+L) inside the field (%d pairs)" % (p.rel, len(aud))
+        if bad:
+            fl = []
+            for a in bad:
+                f_ = {"property": "capacity.%s.%s" % (key, a["field"]), "status": "FAILURE", "where": p.rel,
+                      "description": "bytecode bounds writes to %s (%d bytes, %s) by the literal %s = %d" % (a["field"], a["field_size"], a["addr_expr"], a["len_expr"], a["len"])}
+                if key == "pkey":
+                    crashed, text, rpath = _native_demo(repo, builddir, ["pkey-oversize", str(a["len"])], "pkey-oversize-key")
+                    f_["replay"] = {"path": rpath, "reproduced": crashed, "text": (text or "")[-600:], "native_rc": None}
+                fl.append(f_)
+            out.append(_res("literal-capacity-%s" % key, "FAIL", desc_c, failed=fl, stats={"pairs": aud}, backend="constant comparison", obligations=len(aud)))
+        elif aud:
+            out.append(_res("literal-capacity-%s" % key, "PASS", desc_c, stats={"pairs": aud}, backend="constant comparison", obligations=len(aud)))
+        # ---- translation validation of E2
+        t2 = time.time()
+        try:
+            v = t0tool.validate(p)
+        except Exception as ex:
+            v = {"error": "validate: %r" % (ex,), "natives": len(p.natives), "exercised": 0, "agreeing": 0, "disagreeing": [], "executions": 0}
+        desc_v = ("translation validation of the E2 extraction of %s: the real interpreter (out-of-tree copy with a per-instruction hook) runs on the repository's "
+                  "own inputs; every executed native is re-executed from the same pre-state by the extracted function and the post-states compared") % p.rel
+        stv = {"natives": v["natives"], "exercised": v["exercised"], "agreeing": v["agreeing"], "disagreeing": v["disagreeing"],
+               "native_executions_compared": v["executions"], "not_exercised": v.get("not_exercised"), "wall_s": round(time.time() - t2, 1)}
+        if v.get("error"):
+            out.append(_res("e2-validation-%s" % key, "INCONCLUSIVE", desc_v, stats=stv, kind="encoding", reason=v["error"][:500], backend="native differential run"))
+        elif v["disagreeing"]:
+            fl = [{"property": "e2.validation.%s" % key, "status": "FAILURE", "where": p.rel,
+                   "description": "extracted native differs from the real interpreter: %s" % v["disagreeing"]}]
+            r_ = _res("e2-validation-%s" % key, "INCONCLUSIVE", desc_v, stats=stv, kind="encoding", backend="native differential run",
+                      reason="E2 extraction disagrees with the real interpreter on %s" % v["disagreeing"])
+            out.append(r_)
+        else:
+            out.append(_res("e2-validation-%s" % key, "PASS", desc_v, stats=stv, backend="native differential run", obligations=v["exercised"]))
     return out
